@@ -43,6 +43,9 @@ class _MockID:
 
 
 class _Session:
+    def __init__(self, host: Any = None, port: Any = None) -> None:
+        self.host, self.port = host, port
+
     def cmd_output(self, *a: Any, **k: Any) -> str:
         return ""
 
@@ -90,7 +93,7 @@ def install() -> None:
     runner_mod.asyncio = vsched.SHIM
     runner_mod.TestRunner.run_test_task = _run_test_task
     node_mod.door = DoorShim
-    worker_mod.remote.wait_for_login = lambda *a, **k: _Session()
+    worker_mod.remote.wait_for_login = lambda client=None, host=None, port=None, *a, **k: _Session(host, port)
 
     real_get_parser = params_parser.Reparsable.get_parser
     real_get_params = params_parser.Reparsable.get_params
@@ -179,6 +182,13 @@ async def _run_test_task(self: Any, node: Any) -> None:
     uid = node.id_test.uid
     name = node.params["name"]
     ev = run.on_start(node, worker, uid)
+    # what the real run_test_task hands to the spawner
+    spawner = node.params.get("nets_spawner")
+    if spawner == "remote":
+        sess = node.started_worker.get_session()
+        ev["spawn_handle"] = (getattr(sess, "host", None), str(getattr(sess, "port", None)))
+    elif spawner == "lxc":
+        ev["spawn_handle"] = node.params["nets_host"] or "process"
     await vsched.Suspend("test", run.duration_of(ev), ev)
     status = run.choose_status(ev)
     if status != "NONE":
@@ -208,6 +218,7 @@ class DoorShim:
         from aexpect.exceptions import ShellCmdError
 
         assert CUR is not None
+        CUR.door_session = (getattr(session, "host", None), str(getattr(session, "port", None)))
         ok = CUR.door(DoorShim._action, DoorShim._params)
         if not ok:
             raise ShellCmdError(1, "command", "AssertionError")
@@ -273,6 +284,13 @@ def menu(name: str, **kw: Any) -> Scenario:
         "G5b": ("normal..tutorial3", "net3 net5"),
         "G6": ("leaves..tutorial_gui", "cluster1.net6 cluster1.net7 cluster2.net6"),
         "G6b": ("normal..tutorial3", "cluster1.net6 cluster2.net6"),
+        "G6c": ("leaves..tutorial_gui", "cluster1.net6 cluster1.net7"),
+        "G6d": ("leaves..tutorial_gui", "cluster1.net6 cluster2.net6"),
+        "G7": ("leaves..tutorial_get..explicit_noop", "cluster1.net6 cluster1.net7"),
+        "G7x": ("leaves..tutorial_get..explicit_noop", "cluster1.net6 cluster2.net6"),
+        "G7l": ("leaves..tutorial_get..explicit_noop", "net1 net2"),
+        "G8": ("leaves..client_noop,leaves..explicit_noop", "net1 net5"),
+        "G8b": ("leaves..client_noop,leaves..explicit_noop", "net1 net2"),
         "G0": ("normal..tutorial1", "net0"),
     }
     restriction, nets = table[name]
@@ -474,7 +492,7 @@ class Run:
         ev = {"kind": "door", "idx": len(self.trace), "action": action, "worker": wid, "requests": reqs,
               "node_bridged": bridged_name(node) if node is not None else None,
               "scope": scope_of(node.params, self.graph.workers[wid]) if node is not None and wid in self.graph.workers else "global",
-              "removable": removable, "running_now": [dict(exec=e["exec"], bridged=e["bridged"], worker=e["worker"]) for e in self.running.values()], "pool_scope": params.get("pool_scope")}
+              "removable": removable, "session": getattr(self, "door_session", None), "running_now": [dict(exec=e["exec"], bridged=e["bridged"], worker=e["worker"]) for e in self.running.values()], "pool_scope": params.get("pool_scope")}
         self.trace.append(ev)
         if action == "check":
             ok = True
@@ -607,6 +625,9 @@ def prepare(eng: symx.Engine, scenario: Scenario, config: Config) -> Run:
 
     run = Run(eng, scenario, config)
     CUR = run
+    from avocado_i2n.cartgraph import TestWorker
+
+    TestWorker._session_cache.clear()
     graph = scenario.build()
     job = mock.MagicMock()
     job.logdir = "."
@@ -723,6 +744,9 @@ def run_tool(eng: symx.Engine, scenario: ToolScenario, config: Config) -> Run:
     from virttest.utils_params import Params
 
     run = Run(eng, scenario, config)  # type: ignore[arg-type]
+    from avocado_i2n.cartgraph import TestWorker
+
+    TestWorker._session_cache.clear()
     run.tool_graphs = []
     run.tool_result = None
     run.tool_error = None
